@@ -1,7 +1,7 @@
 #!/usr/bin/env python3
 """Hash-keyed hooked build of /repo's *current working tree* plus the simulator harness.
 
-  build.py [--variant V0|V1|V2|V3|VS] [--repo /repo] [--quiet]  -> prints path of abtsim
+  build.py [--variant V0|V1|V2|V3|VS|VP] [--repo /repo] [--quiet]  -> prints path of abtsim
 
 The source list is read from src/Makefile.am and the */Makefile.mk fragments.  libabt is
 compiled with the project's own flags plus -DABT_VERIF_SIM, every object then gets the
@@ -21,6 +21,12 @@ VARIANTS = {
     "V2": (["ABT_CONFIG_USE_LINUX_FUTEX"], [], []),
     "V3": (["ABT_CONFIG_DISABLE_LAZY_STACK_ALLOC"], [], []),
     "VS": (["ABT_CONFIG_DISABLE_UB_ASSERT"], [], ["-fsanitize=address,undefined", "-fno-omit-frame-pointer", "-fno-sanitize-recover=undefined"]),
+    # VP: libabt compiled by clang with a callback at every plain load/store; the simulator
+    # turns some of them into scheduling points (sim_plain_access)
+    "VP": ([], [], []),
+}
+LIB_ONLY = {
+    "VP": ("clang", ["-fsanitize-coverage=trace-pc-guard,trace-loads,trace-stores", "-Wno-unknown-warning-option"]),
 }
 
 
@@ -108,7 +114,8 @@ def main():
     inc = os.path.join(repo, "src", "include")
     if not (os.path.exists(os.path.join(inc, "abt_config.h")) and os.path.exists(os.path.join(inc, "abt.h"))):
         die("src/include/abt_config.h / abt.h missing: run ./configure in the repository first")
-    libflags = ["-O2", "-g", "-Wno-error", "-DHAVE_CONFIG_H", "-DABT_VERIF_SIM", "-fvisibility=hidden"] + extra
+    libcc, libonly = LIB_ONLY.get(a.variant, ("gcc", []))
+    libflags = ["-O2", "-g", "-Wno-error", "-DHAVE_CONFIG_H", "-DABT_VERIF_SIM", "-fvisibility=hidden"] + extra + libonly
     key = tree_hash(repo, a.variant, libflags)
     bdir = os.path.join(VERIF, "build", "%s-%s" % (a.variant, key))
     exe = os.path.join(bdir, "abtsim")
@@ -141,7 +148,7 @@ def main():
     for f in files:
         o = os.path.join(tmp, "abt_" + f.replace("/", "_").rsplit(".", 1)[0] + ".o")
         objs.append(o)
-        cmd = ["gcc"] + libflags + ["-I" + incdir, "-I" + os.path.join(repo, "src"), "-c", os.path.join(repo, "src", f), "-o", o]
+        cmd = [libcc] + libflags + ["-I" + incdir, "-I" + os.path.join(repo, "src"), "-c", os.path.join(repo, "src", f), "-o", o]
         jobs.append((cmd, o, True))
     hflags = ["-O1", "-g", "-Wall", "-Wno-unused-function", "-DHAVE_CONFIG_H", "-DABT_VERIF_SIM", "-I" + incdir, "-I" + os.path.join(VERIF, "sim"),
               "-I" + os.path.join(VERIF, "workloads")] + extra
